@@ -109,7 +109,7 @@ func keyComponentsD(v ssa.Value, depth int) []string {
 				// parameters replaced by the actual arguments
 				g := engine.StaticFn(x.Common())
 				args := x.Common().Args
-				for _, b := range g.Blocks {
+				for _, b := range engine.BlocksInl(g) {
 					for _, in := range b.Instrs {
 						if rt, ok := in.(*ssa.Return); ok && len(rt.Results) > 0 {
 							for _, c := range keyComponentsD(engine.RetVal(rt, 0), depth+1) {
@@ -180,7 +180,7 @@ func keyCompleteness(r *Report, p *Program, rule string, only ...string) {
 			continue
 		}
 		comps := map[string]bool{}
-		for _, b := range f.Blocks {
+		for _, b := range engine.BlocksInl(f) {
 			for _, in := range b.Instrs {
 				if rt, ok := in.(*ssa.Return); ok && len(rt.Results) > 0 {
 					for _, c := range keyComponents(engine.RetVal(rt, 0)) {
